@@ -5,6 +5,7 @@ package main
 
 import (
 	"fmt"
+	"go/token"
 	"go/types"
 	"sort"
 	"strings"
@@ -343,6 +344,9 @@ func tokenValueTags(p *Program, fn *ssa.Function, v ssa.Value, at ssa.Instructio
 		// result of a module function returning a Token: the tags of its success returns
 		if call, ok := x.Tuple.(*ssa.Call); ok {
 			if g := call.Common().StaticCallee(); g != nil && p.InLang(g) {
+				if tags, how, ok := consumeWrapperTags(p, g, x.Index, call); ok {
+					return tags, how, true
+				}
 				set := map[string]bool{}
 				for _, rc := range p.successResults(g) {
 					t := tokenTagOf(p, effectiveResults(rc.Ret)[x.Index])
@@ -750,4 +754,72 @@ func beforeAnyCursorMove(fn *ssa.Function, ld ssa.Instruction) bool {
 		}
 	}
 	return true
+}
+
+// consumeWrapperTags: g is a consume-and-return helper — every success return hands back
+// *Parser.previous read right after consume(tags...) with g's own variadic parameter as the tags.
+// The token then carries one of the constants the call site passes.
+func consumeWrapperTags(p *Program, g *ssa.Function, idx int, site *ssa.Call) ([]string, string, bool) {
+	rcs := p.successResults(g)
+	if len(rcs) == 0 {
+		return nil, "", false
+	}
+	k := -1
+	for _, rc := range rcs {
+		res := effectiveResults(rc.Ret)
+		if idx >= len(res) {
+			return nil, "", false
+		}
+		u, ok := res[idx].(*ssa.UnOp)
+		if !ok || u.Op != token.MUL {
+			return nil, "", false
+		}
+		l, ok := u.X.(*ssa.UnOp)
+		if !ok || l.Op != token.MUL {
+			return nil, "", false
+		}
+		if sf, ok := fieldOfAddr(l.X); !ok || !sf.Is("Parser", "previous") {
+			return nil, "", false
+		}
+		// the only parser call before the read is consume(<variadic parameter>...)
+		var last ssa.CallInstruction
+		for _, call := range callsIn(g) {
+			passes := false
+			for _, a := range call.Common().Args {
+				if pt, ok := a.Type().(*types.Pointer); ok && isLangNamed(pt.Elem(), "Parser") {
+					passes = true
+				}
+			}
+			if !passes || !(dominatesInstr(call, l) || canReach(call, l)) {
+				continue
+			}
+			if last != nil {
+				return nil, "", false
+			}
+			last = call
+		}
+		if last == nil || !staticCalleeIs(last, "(*lang.Parser).consume") || !dominatesInstr(last, l) || len(last.Common().Args) < 2 {
+			return nil, "", false
+		}
+		prm, ok := last.Common().Args[1].(*ssa.Parameter)
+		if !ok {
+			return nil, "", false
+		}
+		for i, q := range g.Params {
+			if q == prm {
+				if k >= 0 && k != i {
+					return nil, "", false
+				}
+				k = i
+			}
+		}
+	}
+	if k < 0 || k >= len(site.Call.Args) {
+		return nil, "", false
+	}
+	tags, ok := variadicConstNames(p, site.Call.Args[k])
+	if !ok {
+		return nil, "", false
+	}
+	return tags, "after " + shortName(g) + "(" + strings.Join(tags, ", ") + "), a consume-and-return helper", true
 }
